@@ -630,6 +630,19 @@ def run(ctx):
     res += par.pmap(_multichannel_case, [
         (ch, ctx.seed, scratch)
         for ch in ((1, 2), (1, 3), (2, 3), (1, 2, 3))])
+    triples = []
+    if ctx.thorough:
+        # all compatible triples over one representative per group of
+        # corruptions (the first of each group)
+        reps = {}
+        for i, m in enumerate(menu):
+            reps.setdefault(m[1], i)
+        rl = sorted(reps.values())
+        triples = [t for t in itertools.combinations(rl, 3)
+                   if all(compatible(a, b)
+                          for a, b in itertools.combinations(t, 2))]
+        res += par.pmap(_corrupt_case, [
+            (triples[k::16], False, ctx.seed, scratch) for k in range(16)])
     pchunks = [pairs[k::16] for k in range(16)]
     res += par.pmap(_corrupt_case, [(c, False, ctx.seed, scratch)
                                     for c in pchunks if c])
@@ -640,6 +653,7 @@ def run(ctx):
         viols.extend(vs)
     cov = {"evaluations": cnt, "distinct_nontrivial": len(singles) + len(
         pairs), "corruptions": len(menu), "pairs": len(pairs),
+        "triples": len(triples),
         "write_paths": routes,
         "rule": "clean files through 10 dclab write paths; corruption menu "
                 "(every mandatory key incl. fluorescence keys, feature "
